@@ -9,8 +9,8 @@ PROPS["C11"] = {
     "modelled": "gen/templates/go_lexer.go.tmpl (Init, Next with restart, DFA loop incl. end-of-input moves and checkpoints, hash accumulation, keyword switch from gen.asStringSwitch data, "
                 "handleInvalidToken in both rule-token and inlined-token modes, rewind, line/column bookkeeping, Pos/Line/Column) mirrored in LexerRT.v on the real tables; "
                 "compiler/lexer.go (resolveClasses, canInlineRules) is covered through its output",
-    "partial": "rune_class_lookup is proved for the array part (maps ending at or below 2048, and ch < 256) and for the binary search over validated ranges; the CompressedMap builder (which values go into which range) is modelled and compared with the implementation, not proved; next_spec is not proved",
-    "level_text": "Universal Coq theorems: the rune class lookup through tmRuneClass equals the plain symbol-map lookup for every sorted map (array part), mapRune's binary search returns the value of the range containing the character for every ascending disjoint range list (checked on the generated ranges each run); the generated keyword switch (sound, complete under the bucket/hash conditions asStringSwitch establishes, identity on non-keys). "
+    "partial": "next_spec (the model's token = the token the rules define) is not proved: both streams are compared on every run; rune_class_lookup is proved completely",
+    "level_text": "Universal Coq theorems: C11_rune_class_lookup — for every symbol map as lex.Compile builds it and every character, the class lookup of the generated lexer (tmRuneClass, else mapRune over the tmRuneRanges built by CompressedMap with its strike/count rules and trailing-default trimming, else the last target) equals the plain symbol-map lookup; mapRune's binary search returns the value of the range containing the character for every ascending disjoint range list; the generated keyword switch (sound, complete under the bucket/hash conditions asStringSwitch establishes, identity on non-keys). "
                   "The step-by-step LexerRT model is compared token by token (token, byte range, line, column, repeated end-of-input) with generated lexers built from the current tree, and "
                   "independently every stream is compared with the stream the rules define (longest match by Brzozowski derivatives, keyword over class, space skipped, invalid token with one-character progress).",
     "level_note": "Trusted: Coq kernel, extraction, glue; hooks gen/verif_hooks_switch.go, lex/verif_hooks_regexp.go. Known finding: byte-mode lexers never recognise keywords with non-ASCII characters.",
